@@ -274,7 +274,10 @@ PPL::MIP_Problem::is_satisfiable() const {
 #if PPL_NOISY_SIMPLEX
         mip_recursion_level = 0;
 #endif // PPL_NOISY_SIMPLEX
-        if (is_mip_satisfiable(relaxed.lp, relaxed.i_vars, p)) {
+        // Branch on a copy: the branching constraints must not be left
+        // in the client's problem.
+        MIP_Problem lp_copy(relaxed.lp, Inherit_Constraints());
+        if (is_mip_satisfiable(lp_copy, relaxed.i_vars, p)) {
           x.last_generator = p;
           x.status = SATISFIABLE;
         }
